@@ -174,3 +174,48 @@ def has_null_member(v):
     if isinstance(v, Obj):
         return any(x is None or has_null_member(x) for _, x in v.members)
     return False
+
+
+def normalize_objects(v, kind):
+    """what a json_decoder does to member lists: first duplicate wins; 'j' (sorted policy) orders by key"""
+    if isinstance(v, Tagged):
+        return Tagged(v.tag, normalize_objects(v.value, kind))
+    if isinstance(v, list):
+        return [normalize_objects(x, kind) for x in v]
+    if isinstance(v, Obj):
+        seen = {}
+        order = []
+        for k, x in v.members:
+            if k not in seen:
+                seen[k] = normalize_objects(x, kind)
+                order.append(k)
+        if kind == "j":
+            order = sorted(order)
+        return Obj([(k, seen[k]) for k in order])
+    return v
+
+
+def strip_tag(v, name):
+    if isinstance(v, Tagged):
+        inner = strip_tag(v.value, name)
+        return inner if v.tag == name else Tagged(v.tag, inner)
+    if isinstance(v, list):
+        return [strip_tag(x, name) for x in v]
+    if isinstance(v, Obj):
+        return Obj([(k, strip_tag(x, name)) for k, x in v.members])
+    return v
+
+
+def canon_nan(v):
+    """every NaN is the same value for comparison purposes (payload and quiet bit are not preserved by float conversions)"""
+    if isinstance(v, tuple) and v[0] == "d" and (v[1] >> 52) & 0x7FF == 0x7FF and v[1] & ((1 << 52) - 1):
+        return ("d", 0x7FF8000000000000)
+    if isinstance(v, tuple) and v[0] == "e" and (v[1] >> 10) & 0x1F == 0x1F and v[1] & 0x3FF:
+        return ("e", 0x7E00)
+    if isinstance(v, Tagged):
+        return Tagged(v.tag, canon_nan(v.value))
+    if isinstance(v, list):
+        return [canon_nan(x) for x in v]
+    if isinstance(v, Obj):
+        return Obj([(k, canon_nan(x)) for k, x in v.members])
+    return v
